@@ -220,6 +220,7 @@ type Sim struct {
 	quiescing bool
 	finished  bool
 	births    []birth
+	closedCh  []uintptr // channels closed through ChanClose (probe only)
 	nborn     uint64
 	stalled   *Task // long preemption in progress: this task is not chosen while others can run
 	stallEnd  int
